@@ -75,13 +75,14 @@ let run (toks : string list) : string =
   | "sk" :: rest ->
     let tbl = ref [] in
     let ops = L.filter (fun t -> if String.length t > 4 && String.sub t 0 4 = "tbl=" then (tbl := parse_table (String.sub t 4 (String.length t - 4)); false)
-                         else not ((String.length t > 4 && (String.sub t 0 4 = "pin=" || String.sub t 0 4 = "fsz=")) || (String.length t > 5 && String.sub t 0 5 = "nacc="))) rest in
+                         else not ((String.length t > 4 && (String.sub t 0 4 = "pin=" || String.sub t 0 4 = "fsz=")) || (String.length t > 5 && (String.sub t 0 5 = "nacc=" || String.sub t 0 5 = "wseg=")))) rest in
     (* the pairing database always holds the accessory's own entity (name = device id, public and private key) *)
     let acc_name = ascii0 "\001accessory" in
     let w = ref (let e = Hap.empty_world !tbl in { e with Hap.store = [(acc_name, n_of_int 1000000)] }) in
     let ctrl_store () = L.filter (fun (n, _) -> n <> acc_name) !w.Hap.store in
     let secured : (string, bool) Hashtbl.t = Hashtbl.create 8 in
     let dead : (string, bool) Hashtbl.t = Hashtbl.create 8 in
+    let stale_fin : (string, bool) Hashtbl.t = Hashtbl.create 8 in
     let cnum : (string, int) Hashtbl.t = Hashtbl.create 8 in
     let next = ref 0 in
     let conn c = match Hashtbl.find_opt cnum c with Some n -> n_of_int n | None -> N0 in
@@ -143,7 +144,11 @@ let run (toks : string list) : string =
              | "m5inner" -> ignore (send (Hap.PSKeyExch (Hap.KSession, Hap.IMalformed, false)))
              | "m5zerokey" -> ignore (send (Hap.PSKeyExch (Hap.KZero, gen, false)))
              | "m5randkey" -> ignore (send (Hap.PSKeyExch (Hap.KOther, gen, false)))
-             | "m5wrongsigner" -> ignore (send (Hap.PSKeyExch (Hap.KSession, Hap.IBadSig (name, pk), false)))
+             | "m5wrongsigner" | "m5zerosig" | "m5nosig" | "m5othersig" -> ignore (send (Hap.PSKeyExch (Hap.KSession, Hap.IBadSig (name, pk), false)))
+             | "replayok" ->
+               (* a transcript recorded on another exchange: the proof was made for another accessory key, the key
+                  exchange is sealed under another session key *)
+               ignore (send Hap.PSStart); ignore (send (Hap.PSVerify (Hap.AValid, Hap.PWrong))); ignore (send (Hap.PSKeyExch (Hap.KOther, gen, false)))
              | "badstep" -> ignore (send Hap.PSBadStep)
              | "badmethod" -> ignore (send Hap.PSBadMethod)
              | "garbage" -> ignore (send Hap.PSBadStep)
@@ -177,10 +182,18 @@ let run (toks : string list) : string =
                (* sealed under the all-zero key: opens exactly when no start has keyed this connection's controller *)
                let keyed = (match Hap.get_conn !w.Hap.conns (conn c) with Some cn -> cn.Hap.hc_pv_keyed | None -> false) in
                ignore (send (fin (not keyed) false true name Hap.SInvalid))
-             | "startonly" -> ignore (send (Hap.PVStart true))
+             | "startonly" -> let okk = send (Hap.PVStart true) in Hashtbl.replace stale_fin c (not okk)
+             | "startzerokeep" ->
+               (* the accessory derives new keys only when it ACCEPTS the start; the controller's record of its earlier
+                  exchange is unchanged *)
+               if send (Hap.PVStart true) then Hashtbl.replace stale_fin c true
+             | "badstartkeep" -> ignore (send (Hap.PVStart false))
              | "finish" ->
                let genuine = (match Hap.store_get !w.Hap.store name with Some k -> k = keyid ctrl | None -> false) in
-               if send (fin true false true name (if genuine then Hap.SGenuine else Hap.SInvalid)) then success := true
+               if (try Hashtbl.find stale_fin c with Not_found -> false) then
+                 (* the finish of an exchange the accessory has replaced: sealed under a key it no longer holds *)
+                 ignore (send (fin false false true name Hap.SInvalid))
+               else if send (fin true false true name (if genuine then Hap.SGenuine else Hap.SInvalid)) then success := true
              | "garbage" -> ignore (send Hap.PVBadStep)
              | _ -> parts := ["badvariant"]);
             ignore stored;
@@ -221,6 +234,7 @@ let run (toks : string list) : string =
         | ["R"; c; ctrl; what] ->
           if not (alive c) then emit "R=noconn" else
             let e = (match what with "add" -> Hap.EPairingsAdd (ascii ctrl, keyid ctrl) | "addnokey" -> Hap.EPairingsAdd (ascii ctrl, N0)
+                           | "addshortkey" | "addlongkey" -> Hap.EPairingsAdd (ascii ctrl, keyid ("badlen-" ^ ctrl))
                            | "remove" -> Hap.EPairingsRemove (ascii ctrl) | _ -> Hap.EPairingsOther) in
             emit ("R=" ^ resp_tlv (req c e))
         | ["X"; c; ep; _m] ->
